@@ -151,7 +151,10 @@ def _plan(w, op):
         n = int(op["n"])
 
         def do():
-            thunk().set_ncomp(n)
+            if op.get("min_radius") is not None:
+                thunk().set_ncomp(n, min_radius=op["min_radius"])
+            else:
+                thunk().set_ncomp(n)
             if ref.swc:
                 # radius profile of an SWC branch: adopted from a direct read (checked by the C13 scenario)
                 start = sum(ref.ncomp_per_branch[:b])
@@ -234,14 +237,14 @@ def _plan(w, op):
         lo, hi = mech.value_range(key, default, is_state)
         if init == "float":
             init_v = uval(op["seed"], key + "init", 0, lo, hi)
-        elif init == "list":
+        elif init in ("list", "badlist"):
             # number of groups known only after grouping: compute from a dry run on a clone
             dry = ref.clone()
             try:
                 ng = dry.make_trainable(_rebind(rv, dry), key, None)
             except (Reject, Unspec):
                 ng = 1
-            init_v = [uval(op["seed"], key + "init", j, lo, hi) for j in range(ng)]
+            init_v = [uval(op["seed"], key + "init", j, lo, hi) for j in range(ng + (1 if init == "badlist" else 0))]
         else:
             init_v = None
         info["init"] = init_v
